@@ -1,10 +1,11 @@
 """C01 canonical SMILES / equality / hash depend on the structure only.
 Model: coq/model/Morgan.v (`_morgan`, `Morgan.atoms_order`, `int_adjacency`, `Element.__hash__`, `Bond.__hash__`,
 `Smiles.__eq__/__hash__`) with the bit-exact CPython 3.12 tuple/int hash of coq/model/PyHash.v.
-Theorems: coq/proofs/MorganProofs.v (+ WriterInvProofs.v), restated in coq/props/C01.v.
+Theorems: coq/proofs/MorganProofs.v and coq/proofs/WriterInvProofs.v (writer model, read-only from C02), restated in coq/props/C01.v.
 Correspondence: the real `hash(atom)`, `int_adjacency`, `_morgan` (result dict in insertion order, the labels before the
 final ranking observed through the `sorted` call of the ranking, KeyError on malformed dicts) and `mol.atoms_order`
-against the model, on corpus + generated molecules, their renumberings and insertion-order shuffles, and on raw dicts.
+against the model, on corpus + generated molecules, their renumberings and insertion-order shuffles, and on raw dicts;
+the writer model's start atom / first child and, on small molecules, whole canonical string and written order.
 Search (real code only, independent of the model): renumber / rebuild in another insertion order through the public
 API / re-spell with chython's random writer and with RDKit -> canonical string, ==, hash must agree; the two documented
 gap classes are recognised by an independent symmetry oracle (own colour refinement, cross-checked with RDKit ranks)."""
@@ -270,10 +271,6 @@ SPECIAL = [
 # members of the two documented gap classes (the oracle must recognise them; whatever the code does there is not judged)
 GAP_EXAMPLES = ['C[C@H]1CC[C@@H](C)CC1', 'C[C@H]1CC[C@H](C)CC1', 'O[C@H]1CC[C@@H](N)CC1', 'C[C@H]1C[C@@H](C)C1',
                 'C12C3C1C1C2C31', 'C12C3C4C1C5C2C3C45', 'CC12C3C1C1C2C31']
-
-
-def canon_forms(m):
-    return {'str': str(m), 'nostereo': format(m, '!s'), 'hash': hash(m)}
 
 
 BOND_TIE_KEY = 'canon-differs:bond-order-tie'
